@@ -56,7 +56,7 @@ CHECKS = {
  "C16": ("TLC case enumeration NormConf.tla in exact rationals (RatiosKept, SumIsOne, RangeIsOne, ZeroFallbackAllZero, BoundWellFormed), each state one implementation test per numeric type + bounds on reachable explainer states + VarNonNegative invariant of IncExplainer.tla",
          "All importance dictionaries of <= 3 values in -2..2 x both modes and a variance x alpha x t x delta grid are enumerated by TLC with the normalisation laws as invariants; every state is executed against _normalize_importance_values / get_normalized_importance_values with int, float, Fraction and NumPy scalars, and get_confidence_bound against the specification's BoundSq.",
          "a bound is required to equal the formula (non-negative, finite); tolerance 1e-9 (1e-6 float32)", "§4 C16"),
- "C17": ("TLC model checking with a Fault action at every callback step (FaultAtomic, Efficiency; CommitEarly negative controls) + TLC refinement check: the micro-step specification implements the atomic AbsExplainer.tla, a failed call being a stuttering step (witness and existential form; old commit order refuted) + replay of all TLC fault behaviours into the code + enumerated fault injection validated by TLC",
+ "C17": ("TLC model checking with a Fault action at every callback step (FaultAtomic, Efficiency; CommitEarly negative controls) + TLAPS proof of FaultAtomic over the control skeleton for any d / n_inner / number of calls (CtlSkeleton.tla, refined by IncExplainer.tla per TLC) + TLC refinement check: the micro-step specification implements the atomic AbsExplainer.tla, a failed call being a stuttering step (witness and existential form; old commit order refuted) + replay of all TLC fault behaviours into the code + enumerated fault injection validated by TLC",
          "Every (call, callback) fault position of the bounded model is explored by TLC and replayed into the real explainers; random scenarios get every fault position injected in turn and TLC checks atomicity and the efficiency identity of the continued stream.",
          "single and double faults; `seen` after a failed call left open", "§4 C17"),
  "C18": ("TLC behaviours replayed with the RNG tape in script mode (the run must be a function of stream and tape: every choice requested from the global generators with the specified kind/range, none left unconsumed, state equal to the specification's) + TLC trace validation of draw clauses + same-process and two-fresh-process replays compared bit for bit",
